@@ -21,6 +21,10 @@ class _DictView:
     def __len__(self) -> int:
         return len(self._wrapper)
 
+    @no_type_check
+    def __contains__(self, value: object) -> bool:
+        return any(v is value or v == value for v in self)
+
 
 class RepeatedRawMetaKeysView(_DictView, KeysView[str]):
     def __iter__(self) -> Iterator[str]:
